@@ -10,6 +10,7 @@ package main
 import (
 	"context"
 	"encoding/json"
+	"strings"
 	"crypto/sha256"
 	"encoding/binary"
 	"fmt"
@@ -99,7 +100,15 @@ type EvReq struct {
 	Exp   int64  `json:"exp"`
 }
 
+// addrOf derives the address of a named account.  "x+" is the address of x extended by one byte
+// (21 bytes), "x-" its first 19 bytes: the address shapes of finding D8.
 func addrOf(name string) sdk.AccAddress {
+	if strings.HasSuffix(name, "+") {
+		return append(append(sdk.AccAddress{}, addrOf(strings.TrimSuffix(name, "+"))...), 0x01)
+	}
+	if strings.HasSuffix(name, "-") {
+		return append(sdk.AccAddress{}, addrOf(strings.TrimSuffix(name, "-"))[:19]...)
+	}
 	h := sha256.Sum256([]byte("verif-account-" + name))
 	return sdk.AccAddress(h[:20])
 }
@@ -170,6 +179,17 @@ func NewChain(p MParams, names []string, bal map[string]int64) *Chain {
 
 	service.EndBlockHook = nil
 	return c
+}
+
+// RegisterTestModuleService registers a module service (finding D9; the repository's own
+// application registers none): service "msvc", provided by account p3
+func (c *Chain) RegisterTestModuleService() {
+	_ = c.K.RegisterModuleService("vsvcmod", &types.ModuleService{
+		ServiceName: "msvc", Provider: c.A("p3"),
+		ReuquestService: func(ctx sdk.Context, input string) (string, string) {
+			return `{"code":200,"message":""}`, `{"header":{},"body":{}}`
+		},
+	})
 }
 
 func (c *Chain) Name(a []byte) string {
